@@ -16,6 +16,9 @@ def flatten(t):
         base = flatten(t[1]) if not _is_empty_ctor(t[1]) else []
         out = list(base)
         for o in t[2]:
+            if o[1] == "insert" and len(o[2]) == 2 and o[2][0][0] == "const" and o[2][0][2] == 0:
+                out = flatten(o[2][1]) + out          # insert(0, x): prepend
+                continue
             if o[1] in EXTENDERS and o[2]:
                 out += flatten(o[2][0])
             elif o[1] in ("index_mut", "as_mut", "deref_mut", "as_mut_slice", "reserve"):
@@ -25,6 +28,11 @@ def flatten(t):
         return out
     if h == "iter":
         return flatten(t[1])
+    if h == "vec":
+        out = []
+        for x in t[1]:
+            out += flatten(x)
+        return out
     if h == "call":
         name = t[1].rsplit("::", 1)[-1]
         if name == "chain" and len(t[2]) == 2:
